@@ -127,6 +127,49 @@ class Ctx:
             self.violations.append(dict(kind="oracle", what=what, cls=cls or ("oracle:" + name), queries=queries,
                                         failing_input=True, details=details, extra=extra or {}))
 
+# ----------------------------------------------------------------------------- shrinking of correspondence disagreements
+def _candidates(q):
+    """structurally smaller variants of a query: drop one element of a list of compound items, halve / decrement a number"""
+    import copy
+    out = []
+    def walk(node, path):
+        if isinstance(node, list):
+            if len(node) >= 2 and all(isinstance(x, list) for x in node):
+                for i in range(len(node)): out.append((path, "drop", i))
+            for i, x in enumerate(node): walk(x, path + [i])
+        elif isinstance(node, int) and node > 1:
+            out.append((path, "half", None)); out.append((path, "dec", None))
+    walk(q, [])
+    res = []
+    for path, op, arg in out:
+        c = copy.deepcopy(q); node = c
+        for i in path[:-1]: node = node[i]
+        if op == "drop":
+            tgt = node[path[-1]] if path else c
+            del tgt[arg]
+        else:
+            v = node[path[-1]]
+            node[path[-1]] = v // 2 if op == "half" else v - 1
+        res.append(c)
+    return res
+
+def shrink_corr(ctx, q, still_bad, budget=4):
+    """greedy: keep the first smaller variant on which implementation and model still disagree"""
+    cur = q
+    for _ in range(budget):
+        cands = _candidates(cur)[:60]
+        if not cands: break
+        try:
+            rows = ctx.run(cands)
+        except Exception:
+            break
+        nxt = None
+        for (c, dv, rv, mv) in rows:
+            if mv is not None and dv is not None and still_bad(c, dv, rv, mv): nxt = c; break
+        if nxt is None: break
+        cur = nxt
+    return cur
+
 def matches_known(k, v):
     """a known finding suppresses a violation only if the violation is of the finding's class"""
     cls = k.get("match", {})
@@ -153,7 +196,23 @@ def register(pid):
 
 def finalize(ctx):
     """if an oracle produced a concrete failing input (that is not a listed known finding), the bare
-    correspondence breaks are redundant: the failing input is the replay"""
+    correspondence breaks are redundant: the failing input is the replay; otherwise the first correspondence
+    disagreement of every class is shrunk to a smaller disagreeing query before it is reported"""
+    _finalize(ctx)
+    seen = set()
+    for v in ctx.violations:
+        if v["kind"] != "corr" or v.get("cls") in seen or not v.get("queries"): continue
+        seen.add(v.get("cls"))
+        q0 = v["queries"][0]
+        try:
+            bad = lambda c, dv, rv, mv: (Ctx._canon(c, dv) != Ctx._canon(c, mv)) and not (mv == ("panic",) and dv and dv[0] in ("panic", "timeout"))
+            small = shrink_corr(ctx, q0, bad)
+            if small != q0:
+                v["queries"] = [small, q0]; v["details"] += " | shrunk from the second query to the first"
+        except Exception as e:
+            v["details"] += " | shrinking failed: %r" % (e,)
+
+def _finalize(ctx):
     try:
         known = [k for k in json.load(open(os.path.join(rta.VERIF, "known_findings.json"))).get("findings", [])
                  if k.get("property") == ctx.pid and k.get("status") == "known"]
@@ -1506,12 +1565,18 @@ class C20(Prop):
                ["edf_fp", [["rbf", ["sporadic", 10, 0], ["scalar", 2]], 10], [[["rbf", pf, ["scalar", 1]], 12]], 100],
                ["es", ["dedicated"], ["agg", [["rbf", pf, ["scalar", 2]]]], 100]]
         qs += wit
+        # corpus: the inputs of the crate's own unit tests and one sample per form of the case language
+        cp = os.path.join(rta.VERIF, "corpus", "crate_tests_and_samples.cases")
+        if os.path.exists(cp):
+            for line in open(cp):
+                line = line.strip()
+                if line and not line.startswith("#"): qs.append(rta.parse(line))
         rows = ctx.run(qs)
         ctx.correspond(rows)
         for (q, dv, rv, mv) in rows:
             cls = "oracle:profile"
             if query_has_prefix(q) and q[0] in ("fifo", "fp_fp", "fp_np", "fp_lp", "fp_fnp", "edf_fp", "edf_np", "edf_lp", "edf_fnp", "es", "timer", "pp", "chain", "rr", "bw", "stepoff"):
-                cls = "oracle:profile:prefix_in_analysis"
+                cls = "oracle:profile:prefix_in_analysis"      # fixed by ebafd38 (a fixed entry suppresses nothing)
             ctx.dist("entry_point", q[0])
             good = dv is not None and rv is not None and dv[0] not in ("panic", "timeout", "crash", "bad") and rv[0] not in ("panic", "timeout", "crash", "bad") and dv == rv
             ctx.oracle("total_and_profile_independent", good,
